@@ -114,7 +114,17 @@ func (ch *chain) anteModel(before *chainView, txBytes []byte) anteDecision {
 		d.reason = "replay: already in the tx index"
 		return d
 	}
-	required := ch.feeMultipliers(before).GetFee(std.Msg)
+	// required fee = the message type's base fee x the governance multiplier listed for that type (else the
+	// default multiplier), computed here independently of FeeMultipliers.GetFee
+	fm := ch.feeMultipliers(before)
+	mult := fm.Default
+	for _, e := range fm.FeeMultis {
+		if e.Key == std.Msg.Type() {
+			mult = e.Multiplier
+			break
+		}
+	}
+	required := std.Msg.GetFee().Mul(sdk.NewInt(mult))
 	if required.IsPositive() && d.fee.LT(required) {
 		d.reason = fmt.Sprintf("fee %s below the required %s", d.fee, required)
 		return d
